@@ -2,6 +2,8 @@
 SOURCE_COMMITS = []
 NOTES = "All checks are bounded exhaustive explorations driving the real mchap code (see DESIGN.md)."
 ENGINES = [
+    {"name": "S", "path": "vmc/sched.py", "serves_properties": ["C08"],
+     "kind_free_text": "cooperative baton scheduler over threads + virtual multiprocessing facade (Queue.put/get, apply_async, AsyncResult.get/wait, close, join are scheduling points); BFS over choice prefixes with canonical state keys; fault injection"},
     {"name": "H", "path": "vmc/checks/c09.py", "serves_properties": ["C09"],
      "kind_free_text": "breadth-first / depth-first explicit-state search over operation histories of the real data structures with canonical-state de-duplication and a reference model evaluated in every state"},
     {"name": "K", "path": "vmc/seams.py, vmc/kasm.py, vmc/kcall.py", "serves_properties": ["C01", "C02", "C18"],
@@ -11,6 +13,10 @@ ENGINES = [
 ]
 _PENDING = "check not built yet in this session (work in progress; see DESIGN.md build order)"
 CHECKS = {
+    "C08": dict(engine="S", category="model_checking",
+                technique="stateless exploration of every interleaving of the real multi-core runner under a cooperative scheduler with explicit-state de-duplication and fault injection at every locus; exhaustive operation-history and ordered-subset enumeration; real-process conformance runs",
+                text="The real _run_stdout_multi_core/_worker/_writer run as tasks over a virtual multiprocessing facade whose queue/pool operations are scheduling points; all interleavings for loci 1..5 x cores 2..4 are explored, without failure and with a failing locus at every position: header first, every record exactly once as one intact write by the writer, no deadlock, and a failure always ends the main task with an exception. All operation histories (other fits, RNG draws, reseeding; seeds 0 and 7) before a fit, all 64 ordered subsets of 4 loci for assemble/call/call-exact, the np.array_split block partition, and real CLI subprocess runs (--cores 1/2/3/6, permuted BED, worker-side failure) complete the quantifiers.",
+                note="Not owned: OS scheduling, pickling into workers, pipe-level atomicity of stdout writes in forked processes."),
     "C09": dict(engine="H", category="model_checking",
                 technique="explicit-state BFS over array_map set/get histories vs dict; exhaustive (move, forced answer) histories of a two-chain assemble system in lock-step under three cache configurations; per-call audit of a caller-supplied pedigree cache",
                 text="array_map: every reachable state within the depth bound for six tiny configurations that force growth and flushes, every key read back after every transition. Assemble: every history of base/interval/exchange moves to depth 3 with None / tiny (flushing) / default caches in lock-step: identical seam vectors and trajectories, carried llk == recomputed, every served and stored value == fresh likelihood. Call: cached likelihood over call orders; pedigree: cache inspected after every Gibbs/MH/exchange call on pedigrees with unequal read numbers; jitted DenovoMCMC/_denovo_assembler traces (cache thresholds -1/0/100, heated chains) carry the recomputed llk.",
